@@ -1011,9 +1011,10 @@ def write_c18_evidence(ctx, tier, agg, wall, nviol, known_hits, variants, machin
                              "pthread_cond (wait, timed wait, signal: schedule-dependent waiter, broadcast)",
                              "futex wait/wake (std::atomic wait/notify, latch, semaphore, future)", "atomic_thread_fence",
                              "pthread_create / join / detach from inside the code under test (threads adopted as tasks, "
-                             "also across the preparation run)", "sched_yield / nanosleep / usleep (hand-off)",
+                             "also across the preparation run)", "sched_yield / nanosleep / usleep (hand-off)", "sem_wait / sem_post", "pthread_spin_lock",
                              "clock_gettime (simulated time = event count)", "scheduler (one runner)"],
-                "stubbed": ["sem_wait is not modelled: reaching it ends the run with class machinery (exit 2)"],
+                "stubbed": ["none of the code under test; a futex operation other than wait/wake or a recursive pthread_once "
+                            "ends the run with class machinery (exit 2)"],
                 "wrapped": ["malloc/free/realloc/calloc/aligned allocation", "operator new/delete"],
             },
             "known_findings_hit": [k["what"] for k in known_hits],
